@@ -187,7 +187,24 @@ def run(ctx):
                     violation(PROP, "EnvSpec.compatibility", f"raised {type(e).__name__}",
                               {"requires_python": rp, "impl": impl, "python_tag": pt, "abi_tag": abi, "error": str(e)[:100],
                                "group": type(e).__name__}, case={"kind": "one", "requires_python": rp, "impl": impl, "py": [pt], "abi": [abi]})
-        # compressed tag sets
+        # compressed tag sets, structured: tags of the SAME interpreter version but different kind, in every
+        # order, with ABI sets that give different ABI classes (the best pair must win whatever the order)
+        for Y in ((8, 9, 10, 12) if full else (rnd.choice([8, 9, 10, 12]),)):
+            kinds = [f"py3{Y}", f"cp3{Y}", f"pp3{Y}", "py3", f"cp3{Y + 1}", f"py3{Y - 1}"]
+            abisets = [["none", "abi3"], ["none", f"cp3{Y}"], ["abi3", f"cp3{Y}"], ["none"], [f"cp3{Y}", "none", "abi3"],
+                       [f"pypy3{Y}_pp73", "none"], [f"cp3{Y}t", "abi3", "none"]]
+            for k in (2, 3):
+                for ptags in itertools.permutations(kinds, k):
+                    if not full and rnd.random() < (0.85 if k == 2 else 0.97):
+                        continue
+                    for a2 in abisets:
+                        try:
+                            spec.compatibility(list(ptags), list(a2), ["any"])
+                            spec.compatibility(list(ptags), list(reversed(a2)), ["any"])
+                        except Exception as e:  # noqa: BLE001
+                            violation(PROP, "EnvSpec.compatibility", f"raised {type(e).__name__}",
+                                      {"requires_python": rp, "impl": impl, "python_tags": ptags, "abi_tags": a2, "error": str(e)[:100]})
+        # compressed tag sets, random
         for _ in range(30 if full else 8):
             p2 = rnd.sample(PYTAGS, rnd.randint(1, 3))
             a2 = rnd.sample(abis, rnd.randint(1, 3))
